@@ -231,7 +231,7 @@ class TagsRun:
         except ChildRaised as e:
             if e.is_command_line_error:
                 self.stats.inc("op_rejected")
-                self.log.add("rejected", e.message[:80])
+                self.log.add("rejected", e.message.replace(self.dir, "<RUN>")[:80])
                 return False
             self.stats.inc("pipeline_step_raised")
             self.stats.inc("pipeline_step_raised:%s:%s" % (what.split("(")[0].split()[-1], e.type_name))
@@ -239,7 +239,7 @@ class TagsRun:
             return False
         except CommandLineError as e:
             self.stats.inc("op_rejected")
-            self.log.add("rejected", str(e)[:80])
+            self.log.add("rejected", str(e).replace(self.dir, "<RUN>")[:80])
             return False
         except Exception as e:
             # A subcommand raising on this input produces no output; C17 speaks about the variants haplotagphase phases,
